@@ -890,6 +890,19 @@ func (te *TemplateEngine) cloneDocument(source *Document) *Document {
 		doc.parts = make(map[string][]byte)
 	}
 	te.cloneAllDocumentParts(source, doc)
+	// styles.xml 的处理方式与源文档一致：由样式管理器生成的继续每次重新生成；原文保留的沿用源文档的
+	// 基线，这样源文档打开之后、以及渲染结果之后通过样式API所做的修改都会写进渲染结果的文件
+	doc.stylesGenerated = source.stylesGenerated
+	if !doc.stylesGenerated {
+		if source.stylesBaseline != nil {
+			doc.stylesBaseline = make(map[string]string, len(source.stylesBaseline))
+			for id, data := range source.stylesBaseline {
+				doc.stylesBaseline[id] = data
+			}
+		} else {
+			doc.snapshotStyles()
+		}
+	}
 
 	// 复制文档关系（包含页眉页脚引用）
 	if source.documentRelationships != nil {
